@@ -159,11 +159,15 @@ class Gen:
             if use_iter:
                 if typ != "MB":
                     new += " iter=1"
+                if r.random() < 0.5:
+                    new += " lazy=1"    # the harness passes an iterator whose size_hint is (0, Some(n))
                 k = r.choice([0, 1, 2, 3, 4, 6]) if not big else r.choice([40, 65, 100])
                 for _ in range(k):
                     inits.append("init %d %s" % (nid, self.child_script(typ)))
                     nid += 1
         elif typ in JOINS:
+            if r.random() < 0.5:
+                new += " lazy=1"
             k = r.choice([0, 1, 2, 3, 4, 6]) if not big else r.choice([40, 65, 100])
             for _ in range(k):
                 inits.append("init %d %s" % (nid, self.child_script(typ)))
@@ -473,7 +477,71 @@ def scen_deque(g, name, typ):
     return _tail(L)
 
 
-SCENARIOS = {"budget": scen_budget, "groups": scen_groups, "reuse": scen_reuse, "deque": scen_deque}
+def scen_zst(g, name, typ):
+    """join_all over futures whose output is zero-sized (the harness can only observe how many
+    outputs come back); every future completes before the join is dropped, so no output is ever
+    dropped inside the crate"""
+    r = g.r
+    k = r.choice([0, 1, 2, 3, 5, 9])
+    L = ["hist " + name, "new JA zst=1" + (" lazy=1" if r.random() < 0.3 else "")]
+    late = 0
+    for i in range(k):
+        if r.random() < 0.5:
+            L.append("init %d :R" % (i + 1))
+        else:
+            L.append("init %d c:P;:R" % (i + 1)); late += 1
+    L.append("build")
+    L.append("poll 1")
+    hs = list(range(late)); r.shuffle(hs)
+    for h in hs:
+        L.append("env w%d" % h)
+        if r.random() < 0.5:
+            L.append("poll %d" % r.choice([1, 2]))
+    L += ["poll 1", "poll 1"]
+    g.stats["types"]["JA"] = g.stats["types"].get("JA", 0) + 1
+    return _tail(L)
+
+
+def scen_cycles(g, name, typ):
+    """unbounded collections filled past their capacity and drained completely (the poll observes
+    None), over and over: the allocation count must not grow with the number of rounds, the
+    largest group is kept across a complete drain and the next group is sized from it"""
+    r = g.r
+    if typ not in ("FU", "MU", "FO"):
+        typ = r.choice(["FU", "MU", "FO"])
+    new = "new %s" % typ
+    c = r.random()
+    if c < 0.4:
+        new += " cap=%d" % r.choice([1, 2, 3])
+    elif c < 0.7:
+        new += " new=1"
+    else:
+        new += " cap=32"
+    L = ["hist " + name, new, "build"]
+    nid = 1
+    src = typ == "MU"
+    ready = ":I;:E" if src else ":R"
+    rounds = r.choice([12, 20, 30])
+    kmax = r.choice([7, 13, 34, 66])
+    for rd in range(rounds):
+        k = kmax if rd % 2 == 0 else r.choice([1, 2, kmax])
+        late = typ == "FO" and r.random() < 0.5
+        for i in range(k):
+            if late and i == 0:
+                L.append("push %d s:P;s:P;:R" % nid)     # the front wakes itself and completes last: everything else is parked
+            else:
+                L.append("push%s %d %s" % ("f" if typ == "FO" and r.random() < 0.1 and not late else "", nid, ready))
+            nid += 1
+        for _ in range((2 if src else 1) * k + 4):
+            L.append("poll 1")
+        if r.random() < 0.2:
+            L.append("obs")
+    g.stats["types"][typ] = g.stats["types"].get(typ, 0) + 1
+    return _tail(L)
+
+
+SCENARIOS = {"budget": scen_budget, "groups": scen_groups, "reuse": scen_reuse, "deque": scen_deque, "zst": scen_zst,
+             "cycles": scen_cycles}
 
 
 def main():
